@@ -406,7 +406,9 @@ func (ex *Exec) choose(kind string, n int) int {
 	return 0
 }
 
-// concretize case-splits a term known to lie in [lo,hi] into a concrete value.
+// concretize case-splits a term known to lie in [lo,hi] into a concrete value. The feasible
+// values are enumerated with the solver (one query per feasible value, not per candidate); the
+// decision log stores the chosen value itself.
 func (ex *Exec) concretize(kind string, t *smt.Term, lo, hi int64) int64 {
 	if c, ok := t.ConstInt(); ok {
 		return c.Int64()
@@ -417,14 +419,80 @@ func (ex *Exec) concretize(kind string, t *smt.Term, lo, hi int64) int64 {
 	if t.Hi != nil && t.Hi.IsInt64() && t.Hi.Int64() < hi {
 		hi = t.Hi.Int64()
 	}
-	if hi-lo > 64 {
-		panic(ex.unsupported(fmt.Sprintf("concretize %s over %d values", kind, hi-lo+1)))
+	if hi < lo {
+		panic(pathEnd{kind: "infeasible"})
 	}
-	alts := make([]*smt.Term, 0, hi-lo+1)
-	for v := lo; v <= hi; v++ {
-		alts = append(alts, ex.b.Eq(t, ex.b.I64(v)))
+	b := ex.b
+	ex.forkSeq++
+	if ex.pos < len(ex.prefix) {
+		v := int64(ex.prefix[ex.pos])
+		ex.pos++
+		ex.trail = append(ex.trail, int(v))
+		ex.assume(b.Eq(t, b.I64(v)))
+		return v
 	}
-	return lo + int64(ex.decide("concretize:"+kind, alts))
+	ex.Forks["concretize:"+kind]++
+	var vals []int64
+	if ex.solver == nil {
+		panic(ex.unsupported("concretize without a solver"))
+	}
+	// a value from the current model comes for free
+	var excl []*smt.Term
+	if ex.model != nil {
+		if r, ok := smt.Eval(t, ex.model); ok {
+			v := r.(*big.Int).Int64()
+			if v >= lo && v <= hi {
+				vals = append(vals, v)
+				excl = append(excl, b.Ne(t, b.I64(v)))
+				ex.ModelHits++
+			}
+		}
+	}
+	firstModel := ex.model
+	for len(vals) <= 64 {
+		ex.solver.Push()
+		ex.solver.Assert(b.And(b.Le(b.I64(lo), t), b.Le(t, b.I64(hi))))
+		for _, e := range excl {
+			ex.solver.Assert(e)
+		}
+		r := ex.solver.CheckLight()
+		if r != smt.Sat {
+			ex.solver.Pop()
+			if r == smt.Unknown && len(vals) == 0 {
+				panic(ex.unsupported("concretize " + kind + ": solver cannot enumerate values"))
+			}
+			break
+		}
+		v, err := ex.solver.IntValue(t)
+		var m map[string]interface{}
+		if err == nil && len(vals) == 0 {
+			m, _ = ex.solver.Model(ex.modelVars())
+		}
+		ex.solver.Pop()
+		if err != nil {
+			panic(ex.unsupported("concretize " + kind + ": " + err.Error()))
+		}
+		if len(vals) == 0 {
+			firstModel = m
+		}
+		vals = append(vals, v.Int64())
+		excl = append(excl, b.Ne(t, b.Int(v)))
+	}
+	if len(vals) == 0 {
+		panic(pathEnd{kind: "infeasible"})
+	}
+	if len(vals) > 64 {
+		panic(ex.unsupported(fmt.Sprintf("concretize %s over more than 64 values", kind)))
+	}
+	for k := len(vals) - 1; k >= 1; k-- {
+		p := append(append([]int{}, ex.trail...), int(vals[k]))
+		ex.pending = append(ex.pending, p)
+	}
+	ex.pos++
+	ex.trail = append(ex.trail, int(vals[0]))
+	ex.model = firstModel
+	ex.assume(b.Eq(t, b.I64(vals[0])))
+	return vals[0]
 }
 
 // ---- obligations ----
